@@ -37,6 +37,19 @@ def run(tier, seed):
     rep.cov["slot_model_refutes_second_data_read"] = bool(rr.violated)
     if not rr.violated:
         raise vlib.ToolFailure("vacuity control failed: TTSlot with RereadData=TRUE was not refuted")
+    # (i') record assembly of insert(): the "keep the old move for an empty-move store" rule applies within one key only
+    ri = vlib.tlc("MC_TTInsert.tla", "TTInsert.cfg", os.path.join(wd, "ins"), workers=4, timeout=600)
+    if not ri.ok:
+        if ri.violated:
+            rep.violation("design:TTInsert:" + ri.violated, f"TTInsert.tla violates {ri.violated}", files=[os.path.join(wd, "ins", "tlc.out")])
+        else:
+            raise vlib.ToolFailure("TTInsert.tla: " + ri.out[-800:])
+    rep.add("states", ri.distinct)
+    rep.add("transitions", ri.generated)
+    rj = vlib.tlc("MC_TTInsert.tla", "TTInsert_defect.cfg", os.path.join(wd, "insd"), workers=4, timeout=600)
+    rep.cov["insert_model_refutes_key_set_before_move_test"] = bool(rj.violated)
+    if rj.violated != "MoveBelongsToKey":
+        raise vlib.ToolFailure("vacuity control failed: TTInsert with SetKeyFirst=TRUE was not refuted")
     # (ii) index lemma
     try:
         p = subprocess.run(["apalache-mc", "check", "--length=0", "--inv=IndexSafe", "--init=Init", "--next=Next", f"--out-dir={wd}/apalache",
